@@ -684,6 +684,7 @@ fn lower_set_and_inject(it: &mut ComponentIterator, inj: &Inj) {
             it.empty_block_alt();
             return;
         }
+        Mode::ClearBefore | Mode::ClearAfter | Mode::ClearAlt => return,
     }
     for o in lower::probe_ops_for(inj) {
         it.inject(o);
